@@ -178,7 +178,7 @@ def run_entry(entry, root_path, root_text, root_dir, elsewhere, public):
 
 def units(tier):
     us = [("TREES", n, si) for n in range(1, 6) for si in range(len(PATH_STYLES))]
-    us += [("CHAINS",), ("CYCLES",), ("MISSING",), ("NOEXPAND",), ("API",), ("SHARED",), ("NOISE",), ("SYMLINK",)]
+    us += [("CHAINS",), ("CYCLES",), ("MISSING",), ("NOEXPAND",), ("API",), ("SHARED",), ("NOISE",), ("SYMLINK",), ("ODDNAMES",)]
     return us
 
 
@@ -510,6 +510,44 @@ def run_symlink(res):
     R.add_sub(res, "root Mapfile / include file reached through symbolic links", res["evals"])
 
 
+ODD_NAMES = ["o'neil.map", "back\\\\slash.map", "one\\back.map", "dollar$HOME.map", "semi;colon.map", "star*.map", "tilde~x.map", "pct%20.map", "amp&x.map",
+             "paren(1).map", "brace{a}.map", "at@x.map", "excl!.map", "\u00fcml\u00e4ut.map"]
+
+
+def run_oddnames(res):
+    """include file names holding characters that mean something to a shell or to an escaping scheme (but nothing to a Mapfile): the name
+    between the quotes is the file name, verbatim"""
+    def body(root_dir, elsewhere):
+        for name in ODD_NAMES:
+            for q in ('"', "'"):
+                if q in name:
+                    continue
+                for nl in ("\n", "\r\n"):
+                    for trail in ("", "  # c"):
+                        clean_dir(root_dir)
+                        inc_text = '  SHAPEPATH "from %s"' % name.replace('"', "").replace("\\", "/") + nl
+                        with open(os.path.join(root_dir, name), "w", encoding="utf-8", newline="") as f:
+                            f.write(inc_text)
+                        root_text = nl.join(["MAP", '  NAME "r"', "  INCLUDE %s%s%s%s" % (q, name, q, trail), "END"]) + nl
+                        with open(os.path.join(root_dir, "root.map"), "w", encoding="utf-8", newline="") as f:
+                            f.write(root_text)
+                        flat = nl.join(["MAP", '  NAME "r"', inc_text.rstrip("\r\n"), "END"]) + nl
+                        want = ("ok", D.typed(impl.loads(flat, expand_includes=False)))
+                        for entry in ("open", "load_relative", "loads_cwd_root"):
+                            got = run_entry(entry, os.path.join(root_dir, "root.map"), root_text, root_dir, elsewhere, False)
+                            res["evals"] += 1
+                            if got == want:
+                                R.add_outcome(res, "equals_substitution")
+                                res["states"].add(R.h64((name, q, nl, trail, entry)))
+                            else:
+                                R.add_outcome(res, "differs")
+                                R.add_violation(res, "oddname|%s|%s" % (name, q), "an include file name with an unusual character is not taken verbatim: %s" % (str(got)[:160],),
+                                                {"name": name, "entry": entry}, None)
+
+    with_scratch(body)
+    R.add_sub(res, "include file names with shell / escape characters", res["evals"])
+
+
 def run_noexpand(res):
     """expand_includes=False keeps the directives as data and writes them back unchanged: every sequence (<= 3, repeats
     allowed) over an alphabet of include names, in every position relative to an ordinary keyword line"""
@@ -563,6 +601,8 @@ def run_unit(unit):
         run_noise(res)
     elif k == "SYMLINK":
         run_symlink(res)
+    elif k == "ODDNAMES":
+        run_oddnames(res)
     else:
         # public-API binding: the module-level open / load / loads on a bounded subset
         run_trees(res, 3, 0, public=True, limit=6)
